@@ -170,7 +170,29 @@ def make_formatters():
 
         def python_code(self, code, focus=None):
             return '[%s]%s' % (type(code).__name__, code)
-    return [('Formatter', Formatter), ('HtmlFormatter', HtmlFormatter), ('TextFormatter', TextFormatter), ('custom', ShoutFormatter), ('type-aware', TypeAwareFormatter)]
+    class NumberedFormatter(Formatter):
+        # a formatter with a setting of its own per instance (like the terminal formatter's path mask): what it renders depends on
+        # WHICH instance the report holds
+        made = [0]
+
+        def __init__(self, report=None):
+            super().__init__(report)
+            self.made[0] += 1
+            self.tag = 'F%d' % self.made[0]
+
+        def name(self, name):
+            return '%s<%s>' % (self.tag, name)
+
+        def line(self, line_number):
+            return '%s@%s' % (self.tag, line_number)
+
+        def python_code(self, code, focus=None):
+            return '%s{%s}' % (self.tag, code)
+
+        def python_value(self, code):
+            return '%s=%s' % (self.tag, code)
+    return [('Formatter', Formatter), ('HtmlFormatter', HtmlFormatter), ('TextFormatter', TextFormatter), ('custom', ShoutFormatter), ('type-aware', TypeAwareFormatter),
+            ('instance-state', NumberedFormatter), ('instance-state', NumberedFormatter)]
 
 
 # ----------------------------------------------------------------------------------------------------------
